@@ -59,7 +59,7 @@ Strip(ls) == SelectSeq(ls, LAMBDA l : l.k \in {"header", "entry"})
 
 DInit == Init /\ deco = None
 DChoose == Choose /\ UNCHANGED deco
-LayoutIdx == CASE layout = "single" -> 0 [] layout = "split" -> 1 [] layout = "noparams" -> 2 [] layout = "headed" -> 19 [] OTHER -> 3    \* headed: the same base structures as split (offsets 23 - 5 = 19 - 1)
+LayoutIdx == CASE layout = "single" -> 0 [] layout = "split" -> 1 [] layout = "noparams" -> 2 [] layout = "headed" -> 19 [] layout = "mixed" -> 25 [] OTHER -> 3    \* headed: the same base structures as split (offsets 23 - 5 = 19 - 1)
 Decorate == /\ pc = "done" /\ Hash % BaseMod = LayoutIdx
             /\ \E p \in Places : \E s \in (IF NeedsString(p) THEN 1..NStrings ELSE {0}) : deco' = [place |-> p, str |-> s]
             /\ pc' = "decorated" /\ UNCHANGED <<deps, sched, i, layout, mi, lay>>
